@@ -34,6 +34,7 @@ type c29Pkt struct {
 	ExtIDs   []uint8  `json:"ext_ids,omitempty"` // one-byte extension ids
 	ExtLen   int      `json:"ext_len,omitempty"`
 	Pad      uint8    `json:"pad,omitempty"`
+	OldPad   bool     `json:"old_pad,omitempty"` // padding given through the deprecated Packet.PaddingSize field only
 	PayLen   int      `json:"pay_len"`
 	Raw      bool     `json:"raw,omitempty"` // use Write([]byte) instead of WriteRTP
 	SSRC     uint32   `json:"ssrc"`
@@ -81,6 +82,7 @@ func c29GenPkt(r *vfRand) *c29Pkt {
 	}
 	if r.Bool(0.25) && p.PayLen > 0 {
 		p.Pad = uint8(r.Range(1, 20))
+		p.OldPad = r.Bool(0.3)
 	}
 	return p
 }
@@ -157,7 +159,11 @@ func c29Build(p *c29Pkt) *rtp.Packet {
 	pk.Payload = r.Bytes(p.PayLen)
 	if p.Pad > 0 && p.PayLen > 0 {
 		pk.Header.Padding = true
-		pk.Header.PaddingSize = p.Pad
+		if p.OldPad {
+			pk.PaddingSize = p.Pad //nolint:staticcheck // the deprecated field is still honoured by WriteRTP
+		} else {
+			pk.Header.PaddingSize = p.Pad
+		}
 	}
 	return pk
 }
@@ -361,6 +367,9 @@ func c29Run(t *testing.T, cj []byte, res *vfResult) {
 		owner.recipients = append(owner.recipients, d.binding)
 		// rewrite rule
 		want := owner.orig.Header.Clone()
+		if want.PaddingSize == 0 && owner.orig.PaddingSize > 0 { //nolint:staticcheck
+			want.PaddingSize = owner.orig.PaddingSize // what goes on the wire carries the padding either way
+		}
 		want.SSRC = c.Bindings[d.binding].SSRC
 		want.PayloadType = c.Bindings[d.binding].PT
 		got := d.header
@@ -481,7 +490,7 @@ func c29HeaderEq(a, b *rtp.Header) bool {
 }
 
 func c29PacketEq(a, b *rtp.Packet) bool {
-	if !c29HeaderEq(&a.Header, &b.Header) {
+	if !c29HeaderEq(&a.Header, &b.Header) || a.PaddingSize != b.PaddingSize { //nolint:staticcheck
 		return false
 	}
 	if len(a.Payload) != len(b.Payload) {
@@ -502,7 +511,7 @@ func init() {
 		Real: []string{"TrackLocalStaticRTP, baseTrackLocalContext, codec fuzzy search (instrumented)", "pion/rtp marshal/unmarshal"},
 		Stub: []string{"binding writers are recorders (optionally failing) instead of SRTP write streams"},
 		Assumptions: []string{"each binding context is bound/unbound by one task only (a context bound twice is outside the property)", "histories <= 26 operations are fed to porcupine with a 20 s cap; Unknown is counted, never reported",
-			"the deprecated packet-level PaddingSize field is not used"},
+			"30% of padded packets give the padding through the deprecated packet-level PaddingSize field only"},
 		Shrink: []string{"tasks.0", "tasks.1", "tasks.2", "strat.script"},
 		Gen:    c29Gen, Run: c29Run,
 	})
